@@ -613,11 +613,26 @@ func run(c *harness.Ctx) harness.Result {
 		if msg == "" && web != nil {
 			msg = CheckWebTop(c, web, p, o)
 		}
-		if msg == "" && k == 0 && c.Index%3 == 0 && len(o.TagRoot)+len(o.TagLeaf) == 0 && !o.Mean && o.Gran != "addresses" && distinctBinaries(p) { // (the mean divisor is the first column of whichever source is listed first)
+		if msg == "" && k == 0 && c.Index%2 == 0 && len(o.TagRoot)+len(o.TagLeaf) == 0 && !o.Mean && o.Gran != "addresses" && distinctBinaries(p) { // (the mean divisor is the first column of whichever source is listed first)
 			// the same samples arriving as two sources
-			profs, srcs := splitSources(r, p)
+			whole := p
+			if r.Intn(2) == 0 {
+				// profiles of an interpreter / converted profiles: no addresses, no mappings; frames
+				// are told apart by function and line only
+				whole = p.Copy()
+				whole.Mapping = nil
+				for _, l := range whole.Location {
+					l.Mapping, l.Address = nil, 0
+					for i := range l.Line {
+						l.Line[i].Line %= 2 // hardly any line information either
+						l.Line[i].Column = 0
+					}
+				}
+				c.Stat("split_source_points_addressless", 1)
+			}
+			profs, srcs := splitSources(r, whole)
 			c.Stat("split_source_points", 1)
-			if msg = checkFormats(c, p, o, profs, srcs); msg != "" {
+			if msg = checkFormats(c, whole, o, profs, srcs); msg != "" {
 				msg = "given as two sources " + fmt.Sprint(srcs) + " (second one with its own ids and rotated sample types): " + msg
 			}
 		}
@@ -635,7 +650,7 @@ func init() {
 	harness.Register(&harness.Check{
 		ID:    "C04",
 		Level: "exploration",
-		Rule: "report-class profiles (recursion, inlined multi-line locations shared between samples, empty stacks, unsymbolized and unmapped frames, negative values, 1-3 count-typed sample types, string and unitless numeric labels) x 3 random points of {granularity 5} x noinlines x showcolumns x sample_index x mean x tagroot/tagleaf; every point rendered through the real driver as -top, -tree, -peek=., -dot, -traces, -topproto, -callgrind (decoded with pprof's name and position compression: one cost line per address-level entry with object, file, function, address, line and self cost; one call record per edge with its inclusive cost) and -dot -call_tree (trim=false), and for every fourth profile also through the web UI's /top view and parsed independently; every third profile is additionally cut into two sources (the second with its own function/location ids and rotated sample types) whose combined report must be the report of the whole; " +
+		Rule: "report-class profiles (recursion, inlined multi-line locations shared between samples, empty stacks, unsymbolized and unmapped frames, negative values, 1-3 count-typed sample types, string and unitless numeric labels) x 3 random points of {granularity 5} x noinlines x showcolumns x sample_index x mean x tagroot/tagleaf; every point rendered through the real driver as -top, -tree, -peek=., -dot, -traces, -topproto, -callgrind (decoded with pprof's name and position compression: one cost line per address-level entry with object, file, function, address, line and self cost; one call record per edge with its inclusive cost) and -dot -call_tree (trim=false), and for every fourth profile also through the web UI's /top view and parsed independently; every second profile is additionally cut into two sources (half of the time stripped of addresses, mappings and most line numbers, like profiles of interpreted code), (the second with its own function/location ids and rotated sample types) whose combined report must be the report of the whole; " +
 			"oracle: reference report over the frames view (flat = leaf sum, cum = once per sample, edge = adjacency once per sample, total = sum |v|, mean quotients), compared as multisets of (name, flat, cum) and (caller, callee, weight); legend 'accounting for' = sum of flat shown. non-trivial = at least 2 samples; distinct = profile shape signature",
 		Assumptions:   []string{"count-typed values so printed numbers are exact integers", "entries are matched by printable name (names with leading/trailing/double blanks or newlines are left to C18)", "a single source is not merged by pprof, so -traces is compared sample by sample"},
 		Parts:         []harness.Part{{Name: "formats", Quick: 4000, Thor: 150000, Run: run}},
